@@ -52,6 +52,18 @@ def braid_suite(ctx, vh):
         # deep STRETCH: > 256 braided commands (BraidResult spill), > 100-command segments
         deep = verif.sample(ctx.rng, n4.replays, 60)
         out += ctx.run_engine(vh, "braid", deep, opts={"twin": 1, "index": 1, "stretch": 300}, tag="braid-deep", timeout=3000)
+    # the same cases on the REAL file-backed storage (FileManager, LibcSpill): layout
+    # independence across storage back ends (C01/C03), spill files on disk (C02)
+    vhf = ctx.build("graph", features="filestore")
+    fsub = verif.sample(ctx.rng, n4.replays, 150 if not ctx.thorough else 2000)
+    out += ctx.run_engine(vhf, "braid", fsub, opts={"twin": 1, "index": 1}, tag="braid-file", timeout=3000)
+    out += ctx.run_engine(vhf, "braid", verif.sample(ctx.rng, n4.replays, 40 if not ctx.thorough else 300),
+                          opts={"twin": 1, "index": 1, "stretch": 14}, tag="braid-file-stretch", timeout=3000)
+    fl = [{"rungs": 300, "side": 2, "side_mode": 1}, {"fan": 300}, {"star": 12}]
+    if ctx.thorough:
+        fl += [{"rungs": 900, "side": 2, "side_mode": m} for m in (0, 1, 2)] + [{"fan": 600}]
+    out += ctx.run_engine(vhf, "braid", fl, tag="ladder-file", timeout=3000)
+    ctx.cov["file_backed_cases"] = len(fsub) + len(fl)
     # binding self-test: a perturbed expectation must be rejected
     victim = next((c for c in n4.replays if len(c["seq"]) >= 3 and not c["err"]), None)
     if victim is None:
